@@ -146,12 +146,12 @@ Eval(t, cur, H, log, fuel) ==
          LET a == Eval(t.a[1], cur, H, log, fuel) IN
          IF IsSkip(a.v) THEN R(SKIP, a.log)
          ELSE IF ~Truthy(a.v) THEN R(FF, a.log)
-         ELSE LET b == Eval(t.b[1], cur, H, a.log, fuel) IN R(IF IsSkip(b.v) THEN SKIP ELSE B(Truthy(b.v)), b.log)
+         ELSE LET b == Eval(t.b[1], cur, H, a.log, fuel) IN IF b.re THEN b ELSE R(IF IsSkip(b.v) THEN SKIP ELSE B(Truthy(b.v)), b.log)
     [] l = "or" ->
          LET a == Eval(t.a[1], cur, H, log, fuel) IN
          IF IsSkip(a.v) THEN R(SKIP, a.log)
          ELSE IF Truthy(a.v) THEN R(TT, a.log)
-         ELSE LET b == Eval(t.b[1], cur, H, a.log, fuel) IN R(IF IsSkip(b.v) THEN SKIP ELSE B(Truthy(b.v)), b.log)
+         ELSE LET b == Eval(t.b[1], cur, H, a.log, fuel) IN IF b.re THEN b ELSE R(IF IsSkip(b.v) THEN SKIP ELSE B(Truthy(b.v)), b.log)
     [] l \in {"pair", "appto"} ->     \* right operand first
          LET b == Eval(t.b[1], cur, H, log, fuel)
              a == Eval(t.a[1], cur, H, b.log, fuel) IN
